@@ -475,6 +475,8 @@ type specEnv struct {
 	pkg     *types.Package
 	s       *State
 	bound   []*Term
+	quant   bool // inside a quantifier body: no side assumptions about bound terms
+	entryEnv *specEnv // environment of entry(e) inside loop invariants
 }
 
 func (e *Engine) envForFrame(s *State, f *Frame, extra map[string]specVal) *specEnv {
@@ -758,6 +760,9 @@ func (e *Engine) loadIn(env *specEnv, pl Place, t types.Type) Value {
 	for i, sl := range l {
 		v[i] = env.s.selectIn(env.heap, pl.Prefix+sl.Suffix, sl.Sort, pl.Addr)
 	}
+	if len(env.bound) == 0 && !env.quant {
+		e.allocatedAssume(env.s, t, v)
+	}
 	return v
 }
 
@@ -827,6 +832,11 @@ func (e *Engine) evalSpecCall(env *specEnv, n *ast.CallExpr) specVal {
 			_ = ov
 		}
 		return e.evalSpec(&sub, n.Args[0])
+	case "entry":
+		if env.entryEnv == nil {
+			e.specFail(n, "entry() outside a loop invariant")
+		}
+		return e.evalSpec(env.entryEnv, n.Args[0])
 	case "implies":
 		a := e.evalSpec(env, n.Args[0])
 		b := e.evalSpec(env, n.Args[1])
@@ -883,6 +893,7 @@ func (e *Engine) evalSpecCall(env *specEnv, n *ast.CallExpr) specVal {
 			sub.vars[k] = v
 		}
 		sub.vars[id] = specVal{Value{bv}, intT}
+		sub.quant = true
 		body := e.evalSpec(&sub, n.Args[3])
 		rng := And(Le(lo.v[0], bv), Lt(bv, hi.v[0]))
 		if name == "forall" {
@@ -915,6 +926,7 @@ func (e *Engine) evalSpecCall(env *specEnv, n *ast.CallExpr) specVal {
 			sub.vars[k] = v
 		}
 		sub.vars[id] = specVal{kv, mt.Key()}
+		sub.quant = true
 		body := e.evalSpec(&sub, n.Args[2])
 		addr := append([]*Term{m.v[0]}, kv...)
 		has := And(Ne(m.v[0], Zero), env.s.selectIn(env.heap, "mapdom("+e.typeKey(mt)+")", SBool, addr))
@@ -948,7 +960,7 @@ func (e *Engine) evalSpecCall(env *specEnv, n *ast.CallExpr) specVal {
 		return specVal{Value{And(Eq(a.v[0], e.tokenTag()), Ne(a.v[1], Zero))}, boolT}
 	}
 	if pd, ok := e.contracts.preds[name]; ok {
-		sub := &specEnv{vars: map[string]specVal{}, heap: env.heap, oldHeap: env.oldHeap, hasOld: env.hasOld, pkg: pd.pkg, s: env.s, wm: env.wm, wmpost: env.wmpost}
+		sub := &specEnv{vars: map[string]specVal{}, heap: env.heap, oldHeap: env.oldHeap, hasOld: env.hasOld, pkg: pd.pkg, s: env.s, wm: env.wm, wmpost: env.wmpost, quant: env.quant}
 		for i, p := range pd.params {
 			sub.vars[p] = e.evalSpec(env, n.Args[i])
 		}
@@ -1073,6 +1085,22 @@ func (e *Engine) applyContract(s *State, x ssa.CallInstruction, fn *ssa.Function
 	}
 	res := e.havocResultNamed(s, x, "ret."+e.shortFunc(fn))
 	e.bindResult(s, x, res)
+	if wmpost != nil {
+		// everything the callee returns exists by the time it returns
+		rs := fn.Signature.Results()
+		off := 0
+		for i := 0; i < rs.Len(); i++ {
+			n := len(e.layout(rs.At(i).Type()))
+			sub := res[off : off+n]
+			off += n
+			switch rs.At(i).Type().Underlying().(type) {
+			case *types.Pointer, *types.Map, *types.Slice:
+				s.assume(Le(sub[0], wmpost))
+			case *types.Interface:
+				s.assume(Le(sub[1], wmpost))
+			}
+		}
+	}
 	if len(ct.ensures) > 0 {
 		extra := e.resultBindings(fn, res)
 		post := &Frame{fn: fn, regs: map[ssa.Value]Value{}, params: args, oldHeap: pf.oldHeap, wm: wm, wmpost: wmpost}
